@@ -1,6 +1,7 @@
 // C08 wp_xv: WorkPool under the controlled scheduler. The pool's worker std::threads are captured by the interposed
 // pthread_create; photon::init()/fini() (called by the workers) are provided by the harness: vCPU + model event engine.
 // config "<vcpus><mode><ring>:<submitter ops>|<submitter ops>"   mode: n = -1 (inline), t = 0 (thread per task), p = pool of 2
+//   an upper-case mode (N/T/P) adds one worker vCPU that entered through join_current_vcpu_into_workpool()
 //   submitters: photon threads on the harness vCPU (default) or a plain OS thread ('@').  ops: c<b> call()  a<b> async_call()
 //   task body b: n nop, y yield, z usleep(10us).   After all submitters are done the pool is destroyed (racing with async tasks).
 #include <photon/photon.h>
@@ -27,6 +28,7 @@ static void run_body(Task* t) {
     mv_yield("in task");
     if (t->body == 'y') thread_yield(); else if (t->body == 'z') { mv_register_deadline(mv_now() + 10); thread_usleep(10); }
     mv_yield("in task 2");
+    if (G->pool_destroyed) pmc_violation("pool-destroyed-before-task-finished", "~WorkPool returned while task %d was still running", t->id);
     t->finished = true;
     G->log += 'T'; G->log += char('0' + t->id);
 }
@@ -57,14 +59,24 @@ static void on_deadlock(const char* dump) { pmc_violation("deadlock", "work pool
 
 void pmc_run(const char* config) {
     St st; G = &st;
-    int nv = config[0] - '0'; int mode = config[1] == 'n' ? -1 : config[1] == 't' ? 0 : 2; int ring = config[2] - '0';
+    int nv = config[0] - '0'; char mc = config[1] | 0x20; bool joined = config[1] != mc;
+    int mode = mc == 'n' ? -1 : mc == 't' ? 0 : 2; int ring = config[2] - '0';
+    pthread_t joined_thread = 0;
     st.prog.parse(config + 4);
     st.nworkers = nv;
     pmc_window(0);
     mv_init(); mvp::use_fast_stacks(true);
     mv_on_deadlock = on_deadlock;
     // the pool is created by vCPU 0 before the start barrier and destroyed by it after every submitter is done
-    st.prog.on_vcpu_start = [&](int os) { if (os == 0) st.pool = new WorkPool(nv, 0, 0, mode, ring); };
+    st.prog.on_vcpu_start = [&](int os) {
+        if (os != 0) return;
+        st.pool = new WorkPool(nv, 0, 0, mode, ring);
+        if (joined) {       // an external vCPU joins the pool; submitting starts once it is registered (anything else is a user error)
+            WorkPool* pool = st.pool;
+            joined_thread = mvp::spawn_vcpu([pool] { pool->join_current_vcpu_into_workpool(); }, 0, "joined");
+            while (pool->get_vcpu_num() < nv + 1) mv_yield("waiting for the joined vCPU");
+        }
+    };
     // destruction races with async tasks still queued/running: keep it inside the exploration window
     st.prog.on_vcpu_end = nullptr;
     bool first_vcpu_is_plain = st.prog.pts.empty() ? false : st.prog.pts[0].plain_os;
@@ -82,6 +94,7 @@ void pmc_run(const char* config) {
     if (st.pool) { // last submitter was the OS thread: destroy from a fresh vCPU
         pthread_t t = mvp::spawn_vcpu([&] { delete st.pool; st.pool = nullptr; st.pool_destroyed = true; }, 0, "destroyer"); mvp::join(t);
     }
+    if (joined) mvp::join(joined_thread);
     for (auto t : st.tasks) {
         if (t->executed != 1 || !t->finished) pmc_violation("task-lost", "task %d (%s) executed=%d finished=%d after the pool was destroyed", t->id, t->async ? "async" : "call", t->executed, (int)t->finished);
         if (t->async && t->deleted != 1) pmc_violation("async-task-not-deleted", "task %d deleted %d times", t->id, t->deleted);
@@ -100,6 +113,9 @@ static const PmcConfig CFG[] = {
     {"1t2:cy,az",       3, {2,2}, {0,0}, {0,0}, {0,0}, "two submitters"},
     {"2t1:cy,cz",       3, {1,2}, {0,0}, {0,0}, {0,0}, "two workers"},
     {"1t1:an|@an",      3, {1,2}, {0,0}, {0,0}, {0,0}, "OS-thread submitter"},
+    {"0T1:az",          3, {2,3}, {0,0}, {0,0}, {0,0}, "only worker is a joined vCPU; async sleeping task vs destruction"},
+    {"0P1:ayaz",        3, {1,2}, {0,0}, {0,0}, {0,0}, "joined vCPU, pooled threads"},
+    {"1T1:azaz",        3, {1,2}, {0,0}, {0,0}, {0,0}, "owned + joined worker"},
     {"1n1:ayan",        2, {1,2}, {0,0}, {0,0}, {0,0}, ""},
     {"2p2:cyaz,azcn",   2, {1,1}, {0,0}, {0,0}, {0,0}, ""},
 };
